@@ -218,6 +218,12 @@ __tzob_zif(echs_tzob_t zob)
 }
 
 
+#if defined ECHSE_VERIF
+/* ghost cells read by the verification harnesses only (/verif) */
+extern long verif_epoch_nd;
+extern unsigned int verif_epoch_d, verif_epoch_s;
+#endif	/* ECHSE_VERIF */
+
 #define DAISY_UNIX_BASE	(7977U)
 #define DAISY_BASE_YEAR	(1948U)
 
@@ -243,6 +249,9 @@ __inst_to_epoch(echs_instant_t i)
 	/* days since the unix epoch, negative before 1970 */
 	time_t nd = (time_t)(j0 + yd) - (time_t)(DAISY_UNIX_BASE + 48U * 365U + 12U);
 
+#if defined ECHSE_VERIF
+	verif_epoch_nd = nd;
+#endif	/* ECHSE_VERIF */
 	return (((nd * 24 +
 		  (time_t)(LIKELY(i.H <= 24U) ? i.H : 24U)) * 60 + (time_t)i.M) * 60) + (time_t)i.S;
 }
@@ -254,6 +263,9 @@ __epoch_to_inst(time_t t)
 	unsigned int s = t % 86400U;
 	echs_instant_t ti;
 
+#if defined ECHSE_VERIF
+	verif_epoch_d = d, verif_epoch_s = s;
+#endif	/* ECHSE_VERIF */
 	/* now here's the deal:
 	 * d is actually y * 365U + y / 4U + doy
 	 * or more abstractly (ya + y/b + c), multiply by b yields
